@@ -201,10 +201,9 @@ def parse_strict(text: str):
     (fork/split/switch branch) that lies inside a repeat; `detach` only as the
     last item of a branch or of the top-level sequence; nothing outside this
     grammar."""
+    # blank lines and indentation carry no meaning in the dialect
     lines = [ln.strip() for ln in text.split("\n")]
-    if any(ln == "" for ln in lines):
-        raise StrictError("frame", "blank line in emitted text")
-    toks = lines
+    toks = [ln for ln in lines if ln != ""]
     if len(toks) < 6:
         raise StrictError("frame", "too short")
     if toks[0] != "@startuml":
